@@ -33,6 +33,17 @@ func VerifReset(network string) {
 	VerifHostInfoCalls, VerifHostInfoArg, VerifDials = 0, nil, 0
 }
 
+// VerifOnWrite installs the environment hook called with every datagram / stream chunk the client writes.
+func VerifOnWrite(f func([]byte)) { VerifConn.onWrite = f }
+
+// VerifWriteFail makes every write from now on fail (on = false: writes work again).
+func VerifWriteFail(on bool) {
+	VerifConn.failFrom = 0
+	if on {
+		VerifConn.failFrom = VerifConn.writes + 1
+	}
+}
+
 func VerifConnWrites() int   { return VerifConn.writes }
 func VerifConnLast() []byte  { return VerifConn.last }
 func VerifConnClosed() int   { return VerifConn.closed }
